@@ -50,21 +50,28 @@ theorem deliver1_seg (p : Par) (hc : ChanOK p) (s : Sys) (seq : Nat) (h1 : 1 ≤
   refine ⟨_, rfl, ?_⟩
   split <;> simp
 
-theorem reqFrames_deliver (E : Env) (rs : List Bytes) : ∀ s, reqFrames (deliver E s rs) = reqFrames s := by
+/-- without a C07 disturbance `send_request` is the C13 definition -/
+theorem sendReq_plain (E : Env) (hd : E.dist = none) (s : Sys) (f : Bytes) :
+    sendReq E s f = deliver E { s with srv := (Spec.BlockUp.step E.cfg s.srv f).1, log := ⟨0, f⟩ :: s.log }
+      (Spec.BlockUp.step E.cfg s.srv f).2 := by
+  simp [sendReq, hd]
+
+theorem reqFrames_deliver (E : Env) (hd : E.dist = none) (rs : List Bytes) :
+    ∀ s, reqFrames (deliver E s rs) = reqFrames s := by
   induction rs with
   | nil => intro s; rfl
   | cons r rs ih =>
     intro s
     simp only [deliver, ih]
-    unfold deliver1
+    simp only [deliver1, hd]
     split
     · simp [reqFrames, List.filter_cons]
     · simp only [reqFrames, List.filter_cons]
       split <;> simp
 
-theorem reqFrames_sendReq (E : Env) (s : Sys) (f : Bytes) : reqFrames (sendReq E s f) = f :: reqFrames s := by
-  unfold sendReq
-  rw [reqFrames_deliver]
+theorem reqFrames_sendReq (E : Env) (hd : E.dist = none) (s : Sys) (f : Bytes) :
+    reqFrames (sendReq E s f) = f :: reqFrames s := by
+  rw [sendReq_plain E hd, reqFrames_deliver E hd]
   simp [reqFrames, List.filter_cons]
 
 /-- delivering the segments of one sub-block -/
@@ -183,7 +190,7 @@ theorem sendReq_block (p : Par) (hc : ChanOK p) (s : Sys) (f : Bytes) (srv' : Sr
   obtain ⟨log, hd, hl⟩ := deliver_block p hc base cnt
     { s with srv := srv', log := ⟨0, f⟩ :: s.log } 0 (by simpa using hn) (by omega)
   refine ⟨log, ?_, ?_⟩
-  · unfold sendReq
+  · rw [sendReq_plain p.env rfl]
     show deliver p.env { s with srv := (Spec.BlockUp.step p.cfg s.srv f).1, log := _ }
       (Spec.BlockUp.step p.cfg s.srv f).2 = _
     rw [hstep]
@@ -259,17 +266,15 @@ theorem sendReq_single (p : Par) (hc : ChanOK p) (s : Sys) (f e : Bytes) (srv' :
     · rw [h]; exact hc.first e
     · exact hc.rest _ e h
   have hstep' : Spec.BlockUp.step p.env.cfg s.srv f = (srv', [e]) := hstep
-  unfold sendReq
-  rw [hstep']
+  rw [sendReq_plain p.env rfl, hstep']
   simp only [deliver, deliver1, Par.env, hch, if_true]
   exact ⟨_, rfl, by simp [reqFrames, List.filter_cons]⟩
 
 /-- a request the server does not answer -/
-theorem sendReq_silent (E : Env) (s : Sys) (f : Bytes) (srv' : Srv)
+theorem sendReq_silent (E : Env) (hd : E.dist = none) (s : Sys) (f : Bytes) (srv' : Srv)
     (hstep : Spec.BlockUp.step E.cfg s.srv f = (srv', [])) :
     sendReq E s f = { s with srv := srv', log := ⟨0, f⟩ :: s.log } := by
-  unfold sendReq
-  rw [hstep]; rfl
+  rw [sendReq_plain E hd, hstep]; rfl
 
 /-- the server's reaction to the acknowledge of the last sub-block -/
 theorem ack_last (p : Par) (s : Srv) (q j : Nat) (hp : s.phase = .ack) (hb : s.base = 127 * q)
@@ -562,7 +567,7 @@ theorem close_flow (p : Par) (s : Sys) (q nack : Nat) (h : FinSt p s q nack) :
   unfold close
   rw [if_pos (by simp [h.done, h.err])]
   rw [show [REQUEST_BLOCK_UPLOAD ||| END_BLOCK_TRANSFER, 0, 0, 0, 0, 0, 0, 0] = endConfirm from rfl,
-    sendReq_silent p.env s endConfirm _ hstep]
+    sendReq_silent p.env rfl s endConfirm _ hstep]
   exact ⟨rfl, h.sill, by simp [reqFrames, List.filter_cons], rfl⟩
 
 /-- the requests of a complete conformant block upload of `n` segments with block size 127:
@@ -598,7 +603,8 @@ theorem upload_flow (p : Par) (hc : ChanOK p) (hg : ∀ i, (p.g i).length = 7) (
   obtain ⟨s0, hi, hmid⟩ := init_flow p hc hn hlen
   have hflow := readAll_flow p hc hg (nseg p.cfg - 1) s0 0 0 [] fuel hmid (by omega) (by omega)
   simp only [Nat.mul_zero, Nat.add_zero, List.nil_append] at hflow
-  unfold blockUpload
+  unfold blockUpload blockUploadFrom
+  rw [show ({ ({} : Sys) with cl := {} }) = ({} : Sys) from rfl]
   rw [hi]
   simp only
   split
